@@ -123,6 +123,8 @@ func (p *Packet) decodeHead(data []byte) error {
 		return ErrHeaderLength2Short
 	}
 	start := 16
+	// 没有的字段置0 复用同一个Packet解析时 不能沿用上一个包的值
+	p.Timestamp, p.LastIFrameInterval, p.LastFrameInterval = 0, 0, 0
 	if p.DataType != DataTypePenetrate {
 		p.Timestamp = binary.BigEndian.Uint64(data[16:24])
 		start = 24
